@@ -106,7 +106,7 @@ def linearParams : P (LinearP Float) := do
 
 def showExit : SineExit → String
   | .invalid => "invalid" | .behind => "behind" | .converged => "converged" | .unconverged => "unconverged"
-  | .bisected => "bisected" | .bracket => "bracket" | .nobracket => "nobracket"
+  | .bisected => "bisected" | .bracket => "bracket" | .nobracket => "nobracket" | .maxhits => "maxhits"
 
 /-- trace digest: length, last time, last count, rolling hash, end reason. -/
 def showLoop (tr : List (Int × Nat)) (e : Nat) : String :=
